@@ -589,6 +589,20 @@ func (vc *VC) specLen(x *Val) *Val {
 func (vc *VC) compileCall(env *Env, n *SNode) *Val {
 	f := n.Args[0]
 	args := n.Args[1:]
+	if f.Op == "sel" && f.Args[0].Op == "id" {
+		// pkg.pure(...): a pure function of an imported (or any uniquely named) package of the module
+		if p := vc.e.pkgByName(env.pkg, f.Args[0].Tok); p != nil {
+			if pf := vc.e.lookupPure(p, f.Tok); pf != nil {
+				e2 := *env
+				e2.pkg = p
+				call := &SNode{Op: "call", Args: append([]*SNode{{Op: "id", Tok: f.Tok}}, args...)}
+				// arguments are evaluated in the caller's environment: pre-compile them
+				return vc.callPure(env, pf, args, f.Tok)
+				_ = call
+			}
+		}
+		sfail("unknown function %s in spec", f)
+	}
 	if f.Op != "id" {
 		sfail("unsupported call target %s", f)
 	}
@@ -688,6 +702,47 @@ func (vc *VC) compileCall(env *Env, n *SNode) *Val {
 	case "isnil":
 		need(1)
 		return vc.boolVal(vc.isNil(vc.compile(env, args[0])))
+	case "cat_eq":
+		// cat_eq(buf, p1, ..., pn): the bytes of buf are the concatenation p1 || ... || pn
+		// (parts: byte slices, strings, byte arrays, or single uint8 values)
+		if len(args) < 2 {
+			sfail("cat_eq needs a buffer and at least one part")
+		}
+		buf := vc.compile(env, args[0])
+		br, bo, bl := vc.byteView(buf)
+		hb := env.heap
+		if buf.K == KAgg {
+			hb = buf.H
+		}
+		off := off64(0)
+		var cs []string
+		for _, a := range args[1:] {
+			pv := vc.compile(env, a)
+			if pv.K == KConst {
+				pv = vc.constTo(pv, 8, false)
+			}
+			if pv.K == KBV {
+				if pv.W != 8 || vc.intMode {
+					sfail("cat_eq: scalar parts must be uint8 (bit-vector mode)")
+				}
+				cs = append(cs, sEq(sel(sel(hb.m["bv8"], br), bvBin("bvadd", bo, off)), pv.C[0]))
+				off = bvBin("bvadd", off, off64(1))
+				continue
+			}
+			pr, po, pl := vc.byteView(pv)
+			hp := env.heap
+			if pv.K == KAgg {
+				hp = pv.H
+			}
+			vc.nfresh++
+			j := fmt.Sprintf("j!%d", vc.nfresh)
+			cs = append(cs, fmt.Sprintf("(forall ((%s (_ BitVec 64))) (=> (bvult %s %s) (= %s %s)))", j, j, pl,
+				sel(sel(hb.m["bv8"], br), bvBin("bvadd", bo, bvBin("bvadd", off, j))),
+				sel(sel(hp.m["bv8"], pr), bvBin("bvadd", po, j))))
+			off = bvBin("bvadd", off, pl)
+		}
+		cs = append([]string{sEq(bl, off)}, cs...)
+		return vc.boolVal(sAnd(cs...))
 	case "bytes_eq":
 		need(2)
 		a, b := vc.compile(env, args[0]), vc.compile(env, args[1])
@@ -712,36 +767,7 @@ func (vc *VC) compileCall(env *Env, n *SNode) *Val {
 	}
 	// pure spec function (macro) defined in contracts
 	if pf := vc.e.lookupPure(env.pkg, name); pf != nil {
-		if len(args) != len(pf.Params) {
-			sfail("%s expects %d arguments", name, len(pf.Params))
-		}
-		if env.depth > 40 {
-			sfail("pure function expansion too deep (recursive?) at %s", name)
-		}
-		e2 := &Env{vc: vc, vars: map[string]*Val{}, heap: env.heap, old: env.old, pkg: pf.Pkg, depth: env.depth + 1}
-		for i, a := range args {
-			v := vc.compile(env, a)
-			if pt := pf.PTypes[i]; pt != "" {
-				if w, s, ok := goIntType(pt); ok {
-					if v.K == KConst {
-						v = vc.constTo(v, w, s)
-					} else if v.K != KBV || v.W != w || v.Signed != s {
-						sfail("argument %d of %s: expected %s", i+1, name, pt)
-					}
-				} else if m := convRe.FindStringSubmatch(pt); m != nil {
-					w, _ := strconv.Atoi(m[1])
-					if v.K == KConst {
-						v = vc.constTo(v, w, pt[0] == 's')
-					} else if v.K != KBV || v.W != w {
-						sfail("argument %d of %s: expected %s", i+1, name, pt)
-					}
-				} else if pt == "Int" {
-					v = &Val{K: KInt, C: []string{vc.toInt(v)}}
-				}
-			}
-			e2.vars[pf.Params[i]] = v
-		}
-		return vc.compile(e2, pf.Body)
+		return vc.callPure(env, pf, args, name)
 	}
 	// uninterpreted / SMT-defined spec function
 	if uf := vc.e.lookupUF(name); uf != nil {
@@ -749,6 +775,155 @@ func (vc *VC) compileCall(env *Env, n *SNode) *Val {
 	}
 	sfail("unknown function %s in spec", name)
 	return nil
+}
+
+// coerceArg converts an argument value to a declared parameter type of a pure function.
+func (vc *VC) coerceArg(v *Val, pt string, i int, name string) *Val {
+	if pt == "" {
+		return v
+	}
+	if w, s, ok := goIntType(pt); ok {
+		if v.K == KConst {
+			return vc.constTo(v, w, s)
+		}
+		if v.K != KBV || v.W != w || v.Signed != s {
+			sfail("argument %d of %s: expected %s", i+1, name, pt)
+		}
+		return v
+	}
+	if m := convRe.FindStringSubmatch(pt); m != nil {
+		w, _ := strconv.Atoi(m[1])
+		if v.K == KConst {
+			return vc.constTo(v, w, pt[0] == 's')
+		}
+		if v.K != KBV || v.W != w {
+			sfail("argument %d of %s: expected %s", i+1, name, pt)
+		}
+		return v
+	}
+	if pt == "Int" {
+		return &Val{K: KInt, C: []string{vc.toInt(v)}}
+	}
+	if pt == "bool" {
+		if v.K != KBool {
+			sfail("argument %d of %s: expected bool", i+1, name)
+		}
+	}
+	return v
+}
+
+func (vc *VC) callPure(env *Env, pf *PureFn, args []*SNode, name string) *Val {
+	if len(args) != len(pf.Params) {
+		sfail("%s expects %d arguments", name, len(pf.Params))
+	}
+	if env.depth > 40 {
+		sfail("pure function expansion too deep (recursive?) at %s", name)
+	}
+	var vals []*Val
+	for i, a := range args {
+		vals = append(vals, vc.coerceArg(vc.compile(env, a), pf.PTypes[i], i, name))
+	}
+	if pf.Opaque {
+		return vc.applyOpaque(env, pf, vals)
+	}
+	e2 := &Env{vc: vc, vars: map[string]*Val{}, heap: env.heap, old: env.old, pkg: pf.Pkg, depth: env.depth + 1}
+	if e2.pkg == nil {
+		e2.pkg = env.pkg
+	}
+	for i := range args {
+		e2.vars[pf.Params[i]] = vals[i]
+	}
+	return vc.compile(e2, pf.Body)
+}
+
+// applyOpaque: an opaque pure function is a fresh SMT function symbol with its defining equation as a
+// quantified axiom triggered on applications (a conservative definition: the body does not mention it).
+func (vc *VC) applyOpaque(env *Env, pf *PureFn, vals []*Val) *Val {
+	sym := "pf_" + pf.Name
+	if pf.Pkg != nil {
+		sym = "pf_" + sanitize(shortName(pf.Pkg.Pkg.Path())) + "_" + pf.Name
+	}
+	if vc.intMode {
+		sym += "_int"
+	}
+	key := "opaque:" + sym
+	if vc.opaque == nil {
+		vc.opaque = map[string]*Val{}
+	}
+	proto, ok := vc.opaque[key]
+	if !ok {
+		e2 := &Env{vc: vc, vars: map[string]*Val{}, heap: vc.heap0, old: vc.heap0, pkg: pf.Pkg, depth: env.depth + 1}
+		var binders, names, sorts []string
+		for i, pn := range pf.Params {
+			pt := pf.PTypes[i]
+			vc.nfresh++
+			nm := fmt.Sprintf("%s!%d", pn, vc.nfresh)
+			var v *Val
+			switch {
+			case pt == "Int":
+				v = &Val{K: KInt, C: []string{nm}}
+				sorts = append(sorts, "Int")
+			case pt == "bool":
+				v = vc.boolVal(nm)
+				sorts = append(sorts, "Bool")
+			default:
+				w, sg, isGo := goIntType(pt)
+				if !isGo {
+					m := convRe.FindStringSubmatch(pt)
+					if m == nil {
+						sfail("opaque pure %s: parameter %s needs an integer type", pf.Name, pn)
+					}
+					w, _ = strconv.Atoi(m[1])
+					sg = pt[0] == 's'
+				}
+				v = vc.bv(nm, w, sg, nil)
+				if vc.intMode {
+					sorts = append(sorts, "Int")
+				} else {
+					sorts = append(sorts, bvSort(w))
+				}
+			}
+			binders = append(binders, fmt.Sprintf("(%s %s)", nm, sorts[len(sorts)-1]))
+			names = append(names, nm)
+			e2.vars[pn] = v
+		}
+		body := vc.compile(e2, pf.Body)
+		var ret string
+		switch body.K {
+		case KBV:
+			ret = bvSort(body.W)
+			if vc.intMode {
+				ret = "Int"
+			}
+		case KBool:
+			ret = "Bool"
+		case KInt:
+			ret = "Int"
+		case KConst:
+			body = &Val{K: KInt, C: []string{intLit(body.N)}}
+			ret = "Int"
+		default:
+			sfail("opaque pure %s: unsupported result kind %s", pf.Name, body.K)
+		}
+		vc.decls = append(vc.decls, fmt.Sprintf("(declare-fun %s (%s) %s)", sym, strings.Join(sorts, " "), ret))
+		appl := app(sym, names...)
+		vc.decls = append(vc.decls, fmt.Sprintf("(assert (forall (%s) (! (= %s %s) :pattern (%s))))", strings.Join(binders, " "), appl, body.C[0], appl))
+		p := *body
+		p.C = nil
+		proto = &p
+		vc.opaque[key] = proto
+	}
+	var ts []string
+	for i, v := range vals {
+		if pf.PTypes[i] == "Int" {
+			ts = append(ts, vc.toInt(v))
+		} else {
+			ts = append(ts, v.C[0])
+		}
+	}
+	out := *proto
+	out.C = []string{app(sym, ts...)}
+	return &out
 }
 
 func (vc *VC) specConv(x *Val, w int, signed bool) *Val {
